@@ -48,7 +48,7 @@ def check(run, repo):
     owner, fn = repo.find_method(ci, 'get_net_comp')
     for ns, ne in ((2, 1), (3, 2), (4, 3)):
         for success in (True, False):
-            I = Interp(repo, max_depth=10)
+            I = Interp(repo)
             D = I.D
             eq, names, model, M, F = build(I, repo, ns, ne)
             cap = {}
@@ -195,7 +195,7 @@ def constructor(run, repo):
     for label, net in NETWORKS:
         for rev in (False, True):
             order = list(reversed(net)) if rev else list(net)
-            I = Interp(repo, max_depth=10)
+            I = Interp(repo)
             D = I.D
             model = DictV()
             network = DictV()
